@@ -101,6 +101,47 @@ def _truth_form(expr: ast.AST) -> ast.AST:
     return expr
 
 
+def _format_to_fstring(call: ast.Call) -> Optional[ast.AST]:
+    """`"S{}".format(n)` -> f"S{n}": fields without conversion or format spec, numbered automatically, by position
+    or by keyword, each argument used exactly once and in the order given (so evaluation order is unchanged)"""
+    import string
+
+    if any(isinstance(a, ast.Starred) for a in call.args) or any(k.arg is None for k in call.keywords):
+        return None
+    try:
+        fields = list(string.Formatter().parse(call.func.value.value))
+    except ValueError:
+        return None
+    values: List[ast.AST] = []
+    used: List[int] = []
+    auto = 0
+    everything = list(call.args) + [k.value for k in call.keywords]
+    names = {k.arg: len(call.args) + i for i, k in enumerate(call.keywords)}
+    for literal, field, spec, conv in fields:
+        if literal:
+            values.append(ast.Constant(value=literal))
+        if field is None:
+            continue
+        if spec or conv:
+            return None
+        if field == "":
+            idx = auto
+            auto += 1
+        elif field.isdigit():
+            idx = int(field)
+        elif field in names:
+            idx = names[field]
+        else:
+            return None
+        if idx >= len(everything):
+            return None
+        used.append(idx)
+        values.append(ast.FormattedValue(value=everything[idx], conversion=-1, format_spec=None))
+    if used != list(range(len(everything))):
+        return None
+    return ast.JoinedStr(values=values)
+
+
 def _call_free(node: ast.AST) -> bool:
     return not any(isinstance(x, (ast.Call, ast.Await, ast.Yield, ast.YieldFrom, ast.NamedExpr)) for x in ast.walk(node))
 
@@ -265,6 +306,11 @@ class Canon(ast.NodeTransformer):
         if isinstance(node.func, ast.Name) and node.func.id in ("dict", "list", "tuple") and node.func.id not in self.shadowed and not node.args and not node.keywords:
             empty = {"dict": ast.Dict(keys=[], values=[]), "list": ast.List(elts=[], ctx=ast.Load()), "tuple": ast.Tuple(elts=[], ctx=ast.Load())}[node.func.id]
             return ast.copy_location(empty, node)
+        # "..{}..".format(a, b) with plain fields is the f-string
+        if isinstance(node.func, ast.Attribute) and node.func.attr == "format" and isinstance(node.func.value, ast.Constant) and isinstance(node.func.value.value, str):
+            joined = _format_to_fstring(node)
+            if joined is not None:
+                return ast.copy_location(joined, node)
         # min([a, b]) / max((a, b)) over a display of two or more items is min(a, b)
         if (isinstance(node.func, ast.Name) and node.func.id in ("min", "max") and node.func.id not in self.shadowed and len(node.args) == 1 and not node.keywords
                 and isinstance(node.args[0], (ast.List, ast.Tuple)) and len(node.args[0].elts) >= 2 and not any(isinstance(e, ast.Starred) for e in node.args[0].elts)):
